@@ -146,9 +146,10 @@ def lean_stage(prop: str, extra_modules=()):
 
 
 def leanchecker_stage(prop: str):
+    parts = [f"TE.Props.{f.stem}" for f in sorted((LEAN / "TE" / "Props").glob(f"{prop}_*.lean"))]
     lk = _lock()
     try:
-        rc, out = sh(["lake", "env", "leanchecker", f"TE.Props.{prop}"], cwd=LEAN, timeout=3000)
+        rc, out = sh(["lake", "env", "leanchecker", f"TE.Props.{prop}", *parts], cwd=LEAN, timeout=3000)
     finally:
         lk.close()
     return rc == 0, out[-300:]
